@@ -213,12 +213,44 @@ func init() {
 				switch sp.mode {
 				case "clear-restore":
 					// whole-struct clear
-					var clear *ssa.Store
-					for _, b := range fn.Blocks {
-						for _, ins := range b.Instrs {
-							if s, ok := ins.(*ssa.Store); ok && targets[s.Addr] {
-								if k, ok := s.Val.(*ssa.Const); ok && k.Value == nil {
-									clear = s
+					findClear := func(fn *ssa.Function, targets map[ssa.Value]bool) *ssa.Store {
+						var clear *ssa.Store
+						for _, b := range fn.Blocks {
+							for _, ins := range b.Instrs {
+								if s, ok := ins.(*ssa.Store); ok && targets[s.Addr] {
+									if k, ok := s.Val.(*ssa.Const); ok && k.Value == nil {
+										clear = s
+									}
+								}
+							}
+						}
+						return clear
+					}
+					clear := findClear(fn, targets)
+					if clear == nil {
+						// the clear-and-restore block extracted into a helper that is
+						// handed the reused object: analyse the helper in its place
+					search:
+						for _, b := range fn.Blocks {
+							for _, ins := range b.Instrs {
+								ci, ok := ins.(ssa.CallInstruction)
+								if !ok {
+									continue
+								}
+								sc := ci.Common().StaticCallee()
+								if sc == nil || !c.inRoot(sc) || sc.Blocks == nil {
+									continue
+								}
+								for ai, a := range ci.Common().Args {
+									if !targets[a] || ai >= len(sc.Params) {
+										continue
+									}
+									t2 := targetsOf(sc, ai)
+									if cl := findClear(sc, t2); cl != nil {
+										fn, targets, clear = sc, t2, cl
+										ev = fieldEvents(fn, targets)
+										break search
+									}
 								}
 							}
 						}
